@@ -247,6 +247,16 @@ def run(ctx):
         ctx.sample({"structure": k, "states": len(seen[k]), "a_longest_new_state_history": longest})
     ctx.count("depth_completed", depth)
     ctx.count("closed", 1 if closed else 0)
+    # secondary binding: TLA+ memo-protocol model explored by TLC, every edge replayed on the real object
+    from mc.checks import c14_tla
+    import mc.checks.c14 as me
+
+    res = c14_tla.conformance(ctx, me)
+    if res is None:
+        ctx.notes.append("TLA+ binding skipped or failed (see failures): TLC unavailable or model error")
+    else:
+        ctx.notes.append("TLA+ memo-protocol model: %(states)d states, %(edges)d edges (TLC, complete); %(replays)d edge replays on real crystals "
+                         "(every edge x every API call of its action class), abstraction of the real state equals the model successor" % res)
     if not closed:
         ctx.cap("reachable state space not closed within depth %d / %d states; every history up to depth %d is covered"
                 % (max_depth, cap, depth))
@@ -256,6 +266,12 @@ def run(ctx):
 
 
 def replay(ctx, case):
+    if case.get("kind") == "tla":
+        from mc.checks import c14_tla
+        import mc.checks.c14 as me
+
+        c14_tla.conformance(ctx, me)
+        return
     kind = case["structure"]
     c = replay_history(kind, case["history"])
     step(ctx, c, case["op"], case["history"], kind, check=True)
